@@ -842,6 +842,22 @@ def check_C10(tier, seed):
                           "body": [{"k": "access", "g": "particles", "how": "load"}], "wg": []}]}
         for j, o in enumerate([F.opts(enc=True, mv="glam", bmv=True), F.opts(enc=True, mv="glam"), F.opts(enc=True, mv="glam", bmv=True, serde=True)]):
             cases.append({"id": "enc-both-%d-%d" % (i, j), "family": "encase-two-roles", "S": S, "opts": o})
+    # uniform-bound structs whose WGSL size is not a multiple of 16 (4, 8, 12, 20, 24 bytes), alone and nested in a storage struct, under every
+    # target environment a build script can run in
+    U32 = {"k": "scalar", "s": "u32"}
+    for i, mem in enumerate([[F32], [V2], [F32, F32, F32], [V2, V2, V2], [F32, U32, F32, F32, U32], [V2, F32]]):
+        members = [{"name": "m%d" % j, "ty": t} for j, t in enumerate(mem)]
+        S = {"structs": [{"name": "Small", "members": members}, {"name": "Outer", "members": [{"name": "head", "ty": {"k": "struct", "name": "Small"}}, {"name": "tail", "ty": F32},
+                                                                                          {"name": "items", "ty": {"k": "array", "n": 3, "e": {"k": "struct", "name": "Small"}}}]}],
+             "globals": [{"name": "small", "space": "uniform", "group": "0", "binding": "0", "ty": {"k": "struct", "name": "Small"}},
+                         {"name": "outer", "space": "storage_r", "group": "0", "binding": "1", "ty": {"k": "struct", "name": "Outer"}}],
+             "consts": [], "overrides": [], "functions": [],
+             "entries": [{"name": "main", "stage": "compute", "params": [], "wg": ["1"], "body": [{"k": "access", "g": "small", "how": "load"}, {"k": "access", "g": "outer", "how": "load"}]}]}
+        for j, env in enumerate(TARGET_ENVS):
+            c = {"id": "enc-small-%d-%d" % (i, j), "family": "encase-small-uniform", "S": S, "opts": F.opts(enc=True, mv="glam", bmh=(i % 2 == 1))}
+            if env:
+                c["env"] = env
+            cases.append(c)
     drive_and_judge(rep, "C10", cases, "static", ["structs"], enforce="C10S")
     compiled_and_judge(rep, "C10", cases, "encase", "shim", {"encase"}, keep=["structs"])
     return finish(rep)
